@@ -642,7 +642,11 @@ class Node:
                 f"must be a child of target node ({self})"
             )
 
-        if isinstance(child, self._tree.__class__):
+        # (Local import prevents circular includes)
+        from nutree.tree import Tree
+
+        # Note: the target tree's class may be derived from the source's class
+        if isinstance(child, Tree):
             if deep is None:
                 deep = True
             if deep and child is self._tree:
